@@ -66,6 +66,22 @@ def h_reweight(cx, lw, lo_list, all_configs, method):
     cx.expect(obs[0].reweighted is False and w.reweighted is False, 'operands-unflagged')
 
 
+def h_reweight_layouts(cx, method, all_configs=False, hole=False):
+    """reweight with the layout parameters as symbolic integers (solver-enumerated box; data symbolic on every path): weight on a range with first
+    configuration 1..3 and spacing 1..3 (optionally with a hole), observable on the sub-list starting at position 0..3 with stride 1..2"""
+    w0 = cx.integer('w0', 1, 3)
+    ws = cx.integer('ws', 1, 3)
+    i0 = cx.integer('i0', 0, 3)
+    k = cx.integer('k', 1, 2)
+    if cx.mode == 'sym':
+        w0, ws, i0, k = w0.concretize(1, 3), ws.concretize(1, 3), i0.concretize(0, 3), k.concretize(1, 2)
+    W = [w0 + ws * j for j in range(13)]
+    if hole:
+        del W[5]
+    O = [W[i0 + k * j] for j in range(5)]
+    h_reweight(cx, {'e|r1': W}, [{'e|r1': O}, {'e|r1': O}] if method == 'corr' else [{'e|r1': O}], all_configs, method)
+
+
 def h_reweight_bad(cx, lw, lo, why):
     """requests that cannot be aligned must raise"""
     import pyerrors as pe
@@ -199,7 +215,7 @@ def h_qtop(cx, lay, target_kind):
 
 
 HARNESSES = dict(reweight=h_reweight, reweight_bad=h_reweight_bad, correlate=h_correlate, correlate_bad=h_correlate_bad,
-                 merge=h_merge, merge_cov=h_merge_cov, qtop=h_qtop)
+                 merge=h_merge, merge_cov=h_merge_cov, qtop=h_qtop, reweight_layouts=h_reweight_layouts)
 
 
 def jobs(tier, seed):
@@ -238,6 +254,10 @@ def jobs(tier, seed):
         add('reweight', lw=W, lo_list=[{'e|r1': cf[:5]}], all_configs=False, method='method')
         add('reweight', lw=W, lo_list=[{'e|r1': cf[1:6]}, {'e|r1': cf[1:6]}, {'e|r1': cf[1:6]}], all_configs=False, method='corr')
         add('reweight', lw=W, lo_list=[{'e|r1': cf[1:]}, {'e|r1': cf[1:]}], all_configs=True, method='corr')
+    for meth in ('function', 'corr', 'method'):
+        J.append(dict(harness='reweight_layouts', params=dict(method=meth), opts=dict(maxpaths=600)))
+    J.append(dict(harness='reweight_layouts', params=dict(method='function', hole=True), opts=dict(maxpaths=600)))
+    J.append(dict(harness='reweight_layouts', params=dict(method='corr', all_configs=True), opts=dict(maxpaths=600)))
     # several observables in one call: same length and end points, different interior; a repeated layout; a multi-replica list
     for ac in (False, True):
         add('reweight', lw=W1, lo_list=[{'e|r1': [1, 2, 4, 7, 8]}, {'e|r1': [1, 3, 5, 6, 8]}, {'e|r1': [1, 2, 4, 7, 8]}], all_configs=ac, method='function')
